@@ -10,11 +10,11 @@ fn dummy(sh: &[usize]) -> Option<Array<i32>> {
 pub fn dispatch(op: &str, ty: &str, args: &[Arg]) -> Option<String> {
     Some(match (op, args) {
         ("index_at", [Arg::L(sh), Arg::L(c)]) => match dummy(&usizes(sh)) {
-            Some(a) => res_z(&a.index_at(&usizes(c))), None => "bad:input".into() },
+            Some(a) => w2(res_z(&a.index_at(&usizes(c))), res_z(&okr(&a).index_at(&usizes(c)))), None => "bad:input".into() },
         ("index_to_coord", [Arg::L(sh), Arg::Z(i)]) => match dummy(&usizes(sh)) {
-            Some(a) => res_l(&a.index_to_coord(*i as usize)), None => "bad:input".into() },
+            Some(a) => w2(res_l(&a.index_to_coord(*i as usize)), res_l(&okr(&a).index_to_coord(*i as usize))), None => "bad:input".into() },
         ("at", [Arg::A(sh, es), Arg::L(c)]) => with_lab_type!(ty, T, match mk::<T>(sh, es) {
-            Some(a) => res_lab(&a.at(&usizes(c))), None => "bad:input".into() }),
+            Some(a) => w2(res_lab(&a.at(&usizes(c))), res_lab(&okr(&a).at(&usizes(c)))), None => "bad:input".into() }),
         ("index_coords", [Arg::A(sh, es), Arg::L(c)]) => with_lab_type!(ty, T, match mk::<T>(sh, es) {
             Some(a) => { let c = usizes(c); format!("z({})", a[&c[..]].to_lab()) } None => "bad:input".into() }),
         ("index_usize", [Arg::A(sh, es), Arg::Z(i)]) => with_lab_type!(ty, T, match mk::<T>(sh, es) {
